@@ -215,7 +215,7 @@ pub struct CborText { _p: () }
 // dcbor::Simple: the simple values (the float payload is never looked at)
 #[derive(Debug)]
 pub enum Simple { False, True, Null, Float(f64) }
-pub mod dcbor { pub use super::Simple; }
+pub mod dcbor { pub use super::Simple; pub use super::DSet as Set; }
 #[derive(Debug)]
 pub struct ByteString { pub data: Vec<u8> }
 impl View for ByteString {
@@ -287,6 +287,50 @@ impl vstd::std_specs::convert::FromSpecImpl<u64> for CBOR {
 }
 impl From<u64> for CBOR {
     fn from(v: u64) -> Self { CBOR(RefCounted::new(CBORCase::Unsigned(v))) }
+}
+// dcbor::CBOREncodable (`Into<CBOR> + Clone`), as far as the code under contract uses it
+pub trait CBOREncodable: Into<CBOR> + Clone { }
+// dcbor `From<HashSet<T>> for CBOR`: an Array of the elements IN THE SET'S ITERATION ORDER -- not a function of the set of
+// elements (two equal HashSets may iterate differently), so nothing is specified about the result  [A-cbor-from-hashset]
+impl<T: Into<CBOR>> From<std::collections::HashSet<T>> for CBOR {
+    #[verifier::external_body]
+    fn from(v: std::collections::HashSet<T>) -> Self { unimplemented!() }
+}
+// dcbor::Set: a collection kept sorted by the encoded bytes of its items; `Set::from(HashSet<T>)` followed by
+// `CBOR::from(Set)` is therefore determined by the set of elements  [A-dcbor-set-sorted]
+#[verifier::external_body]
+pub struct DSet { _p: () }
+impl DSet { pub uninterp spec fn items(&self) -> CBOR; }
+pub uninterp spec fn set_cbor<T>(s: vstd::set::Set<T>) -> CBOR;
+pub uninterp spec fn dset_of<T>(s: vstd::set::Set<T>) -> DSet;
+pub broadcast axiom fn axiom_dset_items<T>(s: vstd::set::Set<T>)
+    ensures (#[trigger] dset_of::<T>(s)).items() == set_cbor::<T>(s);
+impl<T: Into<CBOR> + Clone> vstd::std_specs::convert::FromSpecImpl<std::collections::HashSet<T>> for DSet {
+    open spec fn obeys_from_spec() -> bool { true }
+    open spec fn from_spec(v: std::collections::HashSet<T>) -> Self { dset_of::<T>(v@) }
+}
+impl<T: Into<CBOR> + Clone> From<std::collections::HashSet<T>> for DSet {
+    #[verifier::external_body]
+    fn from(v: std::collections::HashSet<T>) -> Self { unimplemented!() }
+}
+impl vstd::std_specs::convert::FromSpecImpl<DSet> for CBOR {
+    open spec fn obeys_from_spec() -> bool { true }
+    open spec fn from_spec(v: DSet) -> Self { v.items() }
+}
+impl From<DSet> for CBOR {
+    #[verifier::external_body]
+    fn from(v: DSet) -> Self { unimplemented!() }
+}
+// dcbor `From<HashMap<K, V>> for CBOR`: goes through dcbor's Map, which keeps its entries sorted by the encoded key, so the
+// result is determined by the map's content  [A-cbor-from-hashmap]
+pub uninterp spec fn hashmap_cbor<K, V>(m: vstd::map::Map<K, V>) -> CBOR;
+impl<K: Into<CBOR>, V: Into<CBOR>> vstd::std_specs::convert::FromSpecImpl<std::collections::HashMap<K, V>> for CBOR {
+    open spec fn obeys_from_spec() -> bool { true }
+    open spec fn from_spec(v: std::collections::HashMap<K, V>) -> Self { hashmap_cbor::<K, V>(v@) }
+}
+impl<K: Into<CBOR>, V: Into<CBOR>> From<std::collections::HashMap<K, V>> for CBOR {
+    #[verifier::external_body]
+    fn from(v: std::collections::HashMap<K, V>) -> Self { unimplemented!() }
 }
 // dcbor `From<Simple> for CBOR`: the Simple item  [A-simple-cbor]
 impl vstd::std_specs::convert::FromSpecImpl<Simple> for CBOR {
